@@ -34,6 +34,8 @@ func c20Ops() []APICall {
 			}
 			return "", w.Runner.UnSubscribeLogger("a", o)
 		}),
+		fn("info(a)", func(w *World) (string, error) { _, err := w.Runner.GetProcessInfo("a"); return "", err }),
+		fn("reload", func(w *World) (string, error) { _, err := w.Runner.ReloadProject(); return "", err }),
 		{Op: "start", Name: "a"},
 		{Op: "stop", Name: "a"},
 		{Op: "restart", Name: "a"},
@@ -91,7 +93,7 @@ func c20Scenarios(tier string) []*Scenario {
 	}
 	if tier == "thorough" {
 		// selected triples
-		tri := [][3]int{{0, 6, 7}, {0, 8, 9}, {4, 7, 10}, {1, 5, 6}, {3, 8, 10}}
+		tri := [][3]int{{0, 8, 9}, {0, 10, 11}, {4, 9, 12}, {1, 7, 8}, {3, 10, 12}, {6, 9, 10}}
 		for _, t := range tri {
 			var api [][]APICall
 			var ls []string
